@@ -108,15 +108,15 @@ class Breakage:
 
     @property
     def _location(self) -> Path:
-        # Absolute file path probably means temporary worktree.
-        # We use our worktree prefix to remove some components
-        # of the path on the left (`/tmp/griffe-worktree-*/griffe_*/repo`).
-        if self._relative_filepath.is_absolute():
-            parts = self._relative_filepath.parts
-            for index, part in enumerate(parts):
-                if part.startswith(_WORKTREE_PREFIX):
-                    return Path(*parts[index + 2 :])
-        return self._relative_filepath
+        # The file can be in a temporary worktree: we use our worktree prefix to remove some components
+        # of the path on the left (`/tmp/griffe-worktree-*/griffe_*/repo`). The path is absolute most of the time,
+        # but it is relative when the temporary directory is below the current working directory.
+        relative_filepath = self._relative_filepath
+        parts = relative_filepath.parts
+        for index, part in enumerate(parts):
+            if part.startswith(_WORKTREE_PREFIX):
+                return Path(*parts[index + 2 :])
+        return relative_filepath
 
     @property
     def _canonical_path(self) -> str:
